@@ -326,6 +326,10 @@ func (e *Engine) intrinsic(fr *frame, fn *ssa.Function, args []Value, c *ssa.Cal
 			return args[1]
 		}
 		return args[2]
+	case "TextDependsOn":
+		// the text is a function of symbolic input (not a constant)
+		sv := args[0].(*StringV)
+		return e.tt.Bool(!e.normStr(sv).conc)
 	case "AllocLimit":
 		e.allocLimit = int(e.mustConst(args[0].(*Term), "AllocLimit"))
 		return nil
